@@ -71,5 +71,9 @@ type apiKey struct {
 }
 
 func (m apiKey) Map(ctx context.Context, key string) string {
+	if m.Value == "" {
+		// no name given (api.key = "", go.tag = `json:",omitempty"`): the field keeps its own
+		return key
+	}
 	return m.Value
 }
